@@ -77,7 +77,7 @@ def judge(op, impl, model, spec):
     if impl in ("panic", "bad-op") or impl.startswith("crash"):
         return "violation"
     toks, kv, pos = F.fields(impl)
-    maxlen = int(w[1])
+    maxlen = F.ml(w[1])
     script = F.parse_script(w[3])
     acts = w[4]
     if acts != "-":
@@ -342,6 +342,16 @@ def big_ops(rng, tier):
     return ops
 
 
+def default_limit_ops(rng, tier):
+    ops = []
+    for v in F.default_limit_vals():
+        p = F.payload(v)
+        st = F.frames([p, b"\x05"])
+        exp = f"some:{F.val_tok(v)}/some:u5/none"
+        ops.append(f"aread d {gen.hexb(st)} {F.script_tok([99999999] * 6)} pppp #k=maxlen #len={len(p)} #exp={exp}")
+    return ops
+
+
 def setmax_ops(rng, tier):
     """`set_max_len` between a dropped read and the next one, the frame in flight longer than the new limit (it was admitted under the old
     one and must arrive whole), the frames after it within the new limit"""
@@ -401,6 +411,7 @@ def streams(rng, tier):
         Stream("set-max-len-in-flight", "hio", setmax_ops(rng, tier), judge=judge_setmax, nontrivial=lambda op, impl: "some:" in impl,
                rule="areadm: the payload partly read, the future dropped, set_max_len(k) with k below / at / above the length of the frame in flight, read again: "
                     "every frame whole and in order, then a clean end (theorem set_max_len_frame_in_flight: in state ReadVal the limit is not consulted)"),
+        mk("default-limit", default_limit_ops(rng, tier), "payloads of 524285..524289 bytes through a reader whose limit was never set: 524288 is the last one accepted"),
         mk("big-frames", big_ops(rng, tier), "frames of 65537..100005 bytes delivered in 20..66 KB pieces with Pendings / transient errors mid-payload and drops; oracle: every value once, in order, then none, rem=0"),
         mk("long-streams", long_ops(rng, tier), "31..300 frames in one scenario under chunking, Pendings, transient errors and a drop after every / a third of / no poll; oracle: every value once, in order, then none, rem=0"),
     ]
